@@ -788,8 +788,8 @@ def nd3(F, R):
                     elif v is not None:
                         R.ok("ND3", ctor.where(site), "the `%s` table does not depend on the constructor's capacity argument" % fname)
     for b in F.all_bodies():
-        if b.self_adt != "Sodg":
-            continue
+        if b.self_adt not in ("Sodg", "Script") or b.path in F.test_bodies:
+            continue        # Script lives in the same crate and can read the graph's tables (an id check against the capacity)
         # const generic N as a value
         for site, kind, s in b.sites():
             ops = []
